@@ -99,7 +99,7 @@ for p in props:
             "evidence_file": "evidence/%s.json" % p,
             "replay_cmd_template": "python3 tools/replay.py {path} %s" % p,
             "engine": "coq-model+correspondence",
-            "level_claimed": {"category": "proof", "text": text, "design_ref": "DESIGN.md section %s" % ref},
+            "level_claimed": {"category": "proof", "text": text, "design_ref": "DESIGN.md section %s" % ref.replace("5 C", "5, C")},
             "level_note": NOTE,
             "technique": tech,
         })
